@@ -111,12 +111,25 @@ def audit(case, seq, data: bytes) -> list[tuple[str, str]]:
                                       f"statement {st_i} slot {slot} equals the previous one but is sent"))
             st_i += 1
     if rdflib_api:
-        seq = [T.norm_st(x) for x in jspec.statements(per)]
+        # rdflib hands its statements over in its own order; what was handed over is what the
+        # stream decodes to, and terms that decode to the same strings are equal rdflib terms
+        decoded = jspec.statements(per)
+        rows = [a for a in dec.audit if a["kind"] in ("triple", "quad")]
+        for i in range(1, min(len(rows), len(decoded))):
+            slots = "spo" if rows[i]["kind"] == "triple" else "spog"
+            for j, slot in enumerate(slots):
+                if decoded[i][j] == decoded[i - 1][j] and slot not in rows[i]["unset"]:
+                    fails.append(("repeat-not-elided",
+                                  f"statement {i} slot {slot} ({decoded[i][j]}) equals the previous "
+                                  "one but is sent"))
+        seq = [T.norm_st(x) for x in decoded]
     if cls == "graph" and not rdflib_api:
         runs = sum(1 for i, st in enumerate(seq) if i == 0 or st[3] != seq[i - 1][3])
         if starts > runs:
             fails.append(("graph-restarted",
                           f"{starts} graph starts for {runs} runs of equal graph names"))
+    if case.get("ns"):
+        return fails  # (the naive size of declaration rows is not defined by the property)
     naive = naive_rows_size(seq, cls, tuple(case["preset"]))
     if rdflib_api and cls == "graph":
         naive = rows_size  # a Dataset also hands over its (empty) default graph: not judged
@@ -141,7 +154,49 @@ def judge(case, seq, data, exc, acc) -> None:
                       f"{msg} case={case}", case)
 
 
+def ns_shard(job) -> dict:
+    """Streams that carry namespace declarations (C14's space): the IRI of a declaration goes
+    through the same tables and delta rules as any other IRI."""
+    from mc import drivers as DR  # noqa: PLC0415
+    from mc.checks import c14  # noqa: PLC0415
+
+    _, api, cls, pi, lo, hi = job
+    DR.ensure_rdflib_plugin()
+    acc = pool.Acc()
+    preset = c14.PRESETS[pi]
+    blists = c14.binding_lists(2)
+    for bl in blists[lo:hi]:
+        for seq in c14.stmt_seqs(cls):
+            acc.evals += 1
+            if not bl or not all(AL.fits(st, preset) for st in seq):
+                acc.counters["out_of_domain"] += 1
+                continue
+            acc.nontrivial += 1
+            case = {"ns": True, "api": api, "cls": cls, "preset": list(preset), "delimited": True,
+                    "bindings": list(bl), "seq": [list(x) for x in seq]}
+            run_ns(case, acc)
+    acc.sample({"ns": True, "api": api, "cls": cls, "preset": preset}, cap=1)
+    return acc.out()
+
+
+def run_ns(case: dict, acc) -> None:
+    from mc.checks import c14  # noqa: PLC0415
+
+    seq = [T.from_json(x) for x in case["seq"]]
+    try:
+        data = c14.write(case["api"], case["cls"], seq, [c14.BINDINGS[i] for i in case["bindings"]],
+                         tuple(case["preset"]), True)
+    except Exception as e:  # noqa: BLE001
+        judge(case, seq, None, e, acc)
+    else:
+        judge(case, seq, data, None, acc)
+
+
 def shard(job) -> dict:
+    if job[0] == "N":
+        out = ns_shard(job)
+        out["extra"] = {}
+        return out
     if job[0] == "R":
         from mc import rtrdflib  # noqa: PLC0415
 
@@ -160,7 +215,14 @@ def run(ctx) -> None:
 
     rjobs = rtrdflib.jobs(L, parts=2 if ctx.quick else 12)
     expected += rtrdflib.expected_cases(rjobs)
-    merged = pool.merge(pool.pmap(shard, jobs + rjobs))
+    from mc import drivers as DR  # noqa: PLC0415
+    from mc.checks import c14  # noqa: PLC0415
+
+    nb = len(c14.binding_lists(2))
+    njobs = [("N", api, cls, pi, lo, hi) for api in ("generic", "rdflib") for cls in DR.CLASSES
+             for pi in range(len(c14.PRESETS)) for lo, hi in pool.split_range(nb, 2)]
+    expected += sum((j[5] - j[4]) * len(c14.stmt_seqs(j[2])) for j in njobs)
+    merged = pool.merge(pool.pmap(shard, jobs + rjobs + njobs))
     ctx.add(merged)
     if merged["evals"] != expected:
         from mc.env import HarnessError  # noqa: PLC0415
@@ -177,13 +239,22 @@ def run(ctx) -> None:
             "every stream of C01's space A audited row by row: no entry for a resident string; "
             "API-equal term in the same slot of the previous statement => slot unset; entry/prefix/"
             "name ids are 0 whenever the delta rule allows; GRAPHS: graph starts <= runs of equal "
-            "graph names; row bytes <= naive one-entry-per-use encoding. non-trivial = sequence "
+            "graph names; row bytes <= naive one-entry-per-use encoding; the same id rules on "
+            "streams with namespace declarations (C14's binding lists, both integrations). "
+            "non-trivial = sequence "
             "with an elision opportunity or forced eviction"
         ),
     )
 
 
 def replay(case: dict) -> list:
+    if case.get("ns"):
+        from mc import drivers as DR  # noqa: PLC0415
+
+        DR.ensure_rdflib_plugin()
+        acc = pool.Acc()
+        run_ns(case, acc)
+        return [v["what"] for v in acc.violations]
     if case.get("api") == "rdflib":
         from mc import rtrdflib  # noqa: PLC0415
 
